@@ -261,7 +261,7 @@ func c05Concern(sig string, capacity int, e *mocrelay.Event, hs []histStep, full
 
 func TestVerif_C05(t *testing.T) {
 	rep := vk.NewReport(t, "C05", "exploration")
-	rep.Rule = "histories of 1-50 events by 2-4 authors with many deletion requests (before/after their targets, by id and by kind:pubkey:d address, with relay hints, referencing other deletion requests and other authors' events, later evicted or deleted themselves); every step judged by the retention/deletion transition relation (author isolation is part of it); histories that contain addressable events without a d tag are judged only on isolation and address-independent invariants; non-trivial = a step involving a deletion request, a suppressed event or a removal; distinct = distinct (transition class, #authors, capacity, kind, whether the target is foreign)"
+	rep.Rule = "histories of 1-50 events by 2-4 authors with many deletion requests (before/after their targets, by id and by kind:pubkey:d address, with relay hints, referencing other deletion requests and other authors' events, later evicted or deleted themselves); every step judged by the retention/deletion transition relation (author isolation is part of it); histories that contain addressable events without a d tag are judged only on isolation and address-independent invariants; added later: after a deletion request every removed event is also asked for by id, by author and kind and by each of its single-letter tags; the check reports only steps that break a clause C05 states; non-trivial = a step involving a deletion request, a suppressed event or a removal; distinct = distinct (transition class, #authors, capacity, kind, whether the target is foreign)"
 	rep.Assume("self-referencing deletion requests cannot be built with real SHA-256 ids and are not generated")
 	defer rep.Finish()
 	n := vk.N(5000, 100000)
